@@ -15,8 +15,9 @@ vars == <<i, ms>>
 
 Init == /\ i \in 1..Len(Obs)
         /\ ms = LET nv == ProgMaxReg(Obs[i].prog, Len(Obs[i].prog))
-                    nx == ProgMaxXReg(Obs[i].prog, Len(Obs[i].prog)) IN
-                [j \in 1..Len(Obs[i].inputs) |-> InitMachineX(nv, nx, Obs[i].inputs[j])]
+                    nx == ProgMaxXReg(Obs[i].prog, Len(Obs[i].prog))
+                    nq == ProgMaxQReg(Obs[i].prog, Len(Obs[i].prog)) IN
+                [j \in 1..Len(Obs[i].inputs) |-> InitMachineW(nv, nx, nq, Obs[i].inputs[j])]
 Next == /\ ~(\A j \in 1..Len(ms) : ms[j].halted)
         /\ ms' = [j \in 1..Len(ms) |-> StepM(Obs[i].prog, ms[j])]
         /\ UNCHANGED i
